@@ -217,7 +217,7 @@ Theorem C04_generic_single_cuts : forall (T : Type) (F : fops T) (p : profile),
   (forall a b, f_eqb F a b = true -> f_ltb F b a = false) ->
   (forall a, f_eqb F a a = true) ->
   forall s d m n s' d' m' M0,
-  Forall (fun v => f_ltb F v (f_max F) = true) m ->
+  Forall (fun v => f_ltb F v (f_inf F) = true) m ->
   generic_with (kops_of F Single) p Single s d m n = Ok (s', d', m') -> prologue p m n = Ok M0 -> 1 <= m_obs M0 ->
   forall t : T, exists j, j <= m_obs M0 - 1 /\ cut_at (kops_of F Single) t j (heights d')
     /\ forall x y, x < m_obs M0 -> y < m_obs M0 ->
@@ -232,7 +232,7 @@ Theorem C04_f64_single_cuts_other_entry_points : forall (p : profile) (a : algo)
   a = ANnchain \/ a = AGeneric \/ a = APrimitive ->
   run_with F64 p a Single s d m n = Ok (s', d', m') ->
   prologue p m n = Ok M0 -> 1 <= m_obs M0 ->
-  Forall (fun v => PrimFloat.ltb v (f_max F64) = true) m ->
+  Forall (fun v => PrimFloat.ltb v (f_inf F64) = true) m ->
   forall t : PrimFloat.float, PrimFloat.is_nan t = false ->
   exists j, j <= m_obs M0 - 1 /\ cut_at (kops_of F64 Single) t j (heights d')
     /\ forall x y, x < m_obs M0 -> y < m_obs M0 ->
@@ -246,7 +246,7 @@ Theorem C04_f32_single_cuts_other_entry_points : forall (p : profile) (a : algo)
   a = ANnchain \/ a = AGeneric \/ a = APrimitive ->
   run_with F32 p a Single s d m n = Ok (s', d', m') ->
   prologue p m n = Ok M0 -> 1 <= m_obs M0 ->
-  Forall (fun v => Bltb v (f_max F32) = true) m ->
+  Forall (fun v => Bltb v (f_inf F32) = true) m ->
   forall t : f32, BinarySingleNaN.is_nan t = false ->
   exists j, j <= m_obs M0 - 1 /\ cut_at (kops_of F32 Single) t j (heights d')
     /\ forall x y, x < m_obs M0 -> y < m_obs M0 ->
